@@ -130,50 +130,57 @@ fn s_kem_classic_unauthorized() {
     std::mem::forget(pk);
 }
 
-/// C07 N-struct: an honest classic encapsulation with ONE component altered (symbolic choice: a tag byte,
-/// a byte of the masked seed F, or one trap) never opens for the authorized key: `None`, never a secret.
-#[kani::proof]
-#[kani::unwind(2)]
-#[kani::stub(zeroize::optimization_barrier, nop_barrier)]
-#[kani::stub(alloc::fmt::format, no_format)]
-fn n_classic_single_tamper() {
-    let mut rng = SymRng;
-    let k = kem1();
-    let x = scalar_nz();
-    let pk = RightPublicKey::Classic { H: &k.h * &x };
-    let S = Secret::random(&mut rng);
-    let r = G_hash(&S).unwrap();
-    let c = vec![&k.p0 * &r, &k.p1 * &r];
-    let (ss, mut enc) = c_encaps(S, c, r, vec![&pk]).unwrap();
-    let what: u8 = kani::any();
+/// C07 N-struct: an honest classic encapsulation with ONE component altered never opens for the authorized key:
+/// `None`, never a secret. One harness per kind of alteration (a single harness with a symbolic kind is three
+/// times larger, and a failing one then exhausts the memory before CBMC can report the counterexample).
+macro_rules! tamper_harness {
+    ($name:ident, $cover:expr, |$enc:ident, $k:ident| $tamper:block) => {
+        #[kani::proof]
+        #[kani::unwind(2)]
+        #[kani::stub(zeroize::optimization_barrier, nop_barrier)]
+        #[kani::stub(alloc::fmt::format, no_format)]
+        fn $name() {
+            let mut rng = SymRng;
+            let $k = kem1();
+            let x = scalar_nz();
+            let pk = RightPublicKey::Classic { H: &$k.h * &x };
+            let S = Secret::random(&mut rng);
+            let r = G_hash(&S).unwrap();
+            let c = vec![&$k.p0 * &r, &$k.p1 * &r];
+            let (ss, mut $enc) = c_encaps(S, c, r, vec![&pk]).unwrap();
+            $tamper;
+            let usk = usk1!($k, RightSecretKey::Classic { sk: x });
+            let res = decaps(&mut rng, &usk, &$enc).unwrap();
+            kani::cover!(true, $cover);
+            assert!(res.is_none(), "a tampered encapsulation was opened");
+            std::mem::forget(res);
+            std::mem::forget(ss);
+            std::mem::forget(usk);
+            std::mem::forget($enc);
+            std::mem::forget(pk);
+        }
+    };
+}
+tamper_harness!(n_tamper_tag_byte, "tag altered", |enc, k| {
     let pos: usize = kani::any();
     let delta: u8 = kani::any();
-    kani::assume(delta != 0);
-    if what == 0 {
-        kani::assume(pos < TAG_LENGTH);
-        enc.tag[pos] ^= delta;
-    } else if what == 1 {
-        kani::assume(pos < SHARED_SECRET_LENGTH);
-        if let Encapsulations::CEncs(v) = &mut enc.encapsulations {
-            v[0][pos] ^= delta;
-        }
-    } else {
-        kani::assume(what == 2 && pos < 2);
-        let d = scalar_nz();
-        enc.c[pos] = &enc.c[pos] + &ToyPoint::from(&d);
+    kani::assume(delta != 0 && pos < TAG_LENGTH);
+    enc.tag[pos] ^= delta;
+});
+tamper_harness!(n_tamper_masked_seed_byte, "masked seed altered", |enc, k| {
+    let pos: usize = kani::any();
+    let delta: u8 = kani::any();
+    kani::assume(delta != 0 && pos < SHARED_SECRET_LENGTH);
+    if let Encapsulations::CEncs(v) = &mut enc.encapsulations {
+        v[0][pos] ^= delta;
     }
-    let usk = usk1!(k, RightSecretKey::Classic { sk: x });
-    let res = decaps(&mut rng, &usk, &enc).unwrap();
-    kani::cover!(what == 0, "tag altered");
-    kani::cover!(what == 1, "masked seed altered");
-    kani::cover!(what == 2, "trap altered");
-    assert!(res.is_none(), "a tampered encapsulation was opened");
-    std::mem::forget(res);
-    std::mem::forget(ss);
-    std::mem::forget(usk);
-    std::mem::forget(enc);
-    std::mem::forget(pk);
-}
+});
+tamper_harness!(n_tamper_trap, "trap altered", |enc, k| {
+    let pos: usize = kani::any();
+    kani::assume(pos < 2);
+    let d = scalar_nz();
+    enc.c[pos] = &enc.c[pos] + &ToyPoint::from(&d);
+});
 
 /// C01/C11 L-kem hybrid: h_encaps then decaps with the matching hybridized secret returns the same secret.
 #[kani::proof]
@@ -202,6 +209,146 @@ fn g1_kem_hybrid_1x1() {
     std::mem::forget(ss);
     std::mem::forget(usk);
     std::mem::forget(enc);
+    std::mem::forget(pk);
+}
+
+/// C01/C11: a CLASSIC encapsulation (mixed targets) made for a HYBRIDIZED right is opened by the key holding
+/// the hybridized secret of that right (classic decapsulation uses the ElGamal part of hybridized secrets).
+#[kani::proof]
+#[kani::unwind(2)]
+#[kani::stub(zeroize::optimization_barrier, nop_barrier)]
+#[kani::stub(alloc::fmt::format, no_format)]
+fn g1_kem_classic_enc_hybrid_key() {
+    let mut rng = SymRng;
+    let k = kem1();
+    let x = scalar_nz();
+    let dk = crate::verif_model::toy_kem::ToyDk(kani::any());
+    let pk = RightPublicKey::Hybridized { H: &k.h * &x, ek: dk.ek() };
+    let S = Secret::random(&mut rng);
+    let r = G_hash(&S).unwrap();
+    let c = vec![&k.p0 * &r, &k.p1 * &r];
+    let (ss, enc) = c_encaps(S, c, r, vec![&pk]).unwrap();
+    let usk = usk1!(k, RightSecretKey::Hybridized { sk: x, dk });
+    let res = decaps(&mut rng, &usk, &enc).unwrap();
+    kani::cover!(res.is_some(), "decaps returned Some");
+    assert!(res.is_some(), "a hybridized secret must open a classic encapsulation made for its right");
+    assert!(eq32(&**res.as_ref().unwrap(), &*ss));
+    std::mem::forget(res);
+    std::mem::forget(ss);
+    std::mem::forget(usk);
+    std::mem::forget(enc);
+    std::mem::forget(pk);
+}
+
+/// C14 U-use: encapsulations only a parser can build (no right-encapsulation at all, either flavour; no trap)
+/// are passed to decapsulation: `None`, never a panic or an endless loop.
+#[kani::proof]
+#[kani::unwind(3)]
+#[kani::stub(zeroize::optimization_barrier, nop_barrier)]
+#[kani::stub(alloc::fmt::format, no_format)]
+fn u_decaps_degenerate_encapsulations() {
+    let mut rng = SymRng;
+    let k = kem1();
+    let x = scalar_nz();
+    let usk = usk1!(k, RightSecretKey::Classic { sk: x });
+    let tag: [u8; TAG_LENGTH] = kani::any();
+    let hyb: bool = kani::any();
+    let no_trap: bool = kani::any();
+    let enc = XEnc {
+        tag,
+        c: if no_trap { Vec::new() } else { vec![k.p0.clone(), k.p1.clone()] },
+        encapsulations: if hyb { Encapsulations::HEncs(Vec::new()) } else { Encapsulations::CEncs(Vec::new()) },
+    };
+    let res = decaps(&mut rng, &usk, &enc);
+    kani::cover!(hyb && !no_trap, "hybridized, no right-encapsulation");
+    kani::cover!(!hyb && no_trap, "classic, no trap");
+    assert!(matches!(res, Ok(None)), "an empty encapsulation must simply not open");
+    std::mem::forget(res);
+    std::mem::forget(usk);
+    std::mem::forget(enc);
+}
+
+/// C16 W-encaps: two encapsulations whose seeds differ have different tags and different session secrets
+/// (the seed is drawn from the RNG per call: `encaps` = `Secret::random` + this function).
+#[kani::proof]
+#[kani::unwind(2)]
+#[kani::stub(zeroize::optimization_barrier, nop_barrier)]
+#[kani::stub(alloc::fmt::format, no_format)]
+fn w_encaps_fresh_per_seed() {
+    let mut rng = SymRng;
+    let k = kem1();
+    let x = scalar_nz();
+    let pk = RightPublicKey::Classic { H: &k.h * &x };
+    let s1 = Secret::<SHARED_SECRET_LENGTH>::random(&mut rng);
+    let s2 = Secret::<SHARED_SECRET_LENGTH>::random(&mut rng);
+    kani::assume(!eq32(&*s1, &*s2));
+    let r1 = G_hash(&s1).unwrap();
+    let r2 = G_hash(&s2).unwrap();
+    let c1 = vec![&k.p0 * &r1, &k.p1 * &r1];
+    let c2 = vec![&k.p0 * &r2, &k.p1 * &r2];
+    let (ss1, e1) = c_encaps(s1, c1, r1, vec![&pk]).unwrap();
+    let (ss2, e2) = c_encaps(s2, c2, r2, vec![&pk]).unwrap();
+    kani::cover!(true, "two encapsulations");
+    assert!(!eq32(&*ss1, &*ss2), "two encapsulations share a session secret");
+    let t1 = u128::from_le_bytes(e1.tag);
+    let t2 = u128::from_le_bytes(e2.tag);
+    assert!(t1 != t2, "two encapsulations share a tag");
+    std::mem::forget(ss1);
+    std::mem::forget(ss2);
+    std::mem::forget(e1);
+    std::mem::forget(e2);
+    std::mem::forget(pk);
+}
+
+/// C18 Y-full: the master key opens an honest encapsulation made for the one right it holds (activated) and
+/// reports exactly that right; when the right's secret is disabled it fails.
+#[kani::proof]
+#[kani::unwind(2)]
+#[kani::stub(zeroize::optimization_barrier, nop_barrier)]
+#[kani::stub(alloc::fmt::format, no_format)]
+fn y_full_decaps_1x1() {
+    let mut rng = SymRng;
+    let s = scalar_nz();
+    let t0 = scalar_nz();
+    let t1 = scalar_nz();
+    let x = scalar_nz();
+    let act: bool = kani::any();
+    let h = ToyPoint::from(&s);
+    let p0 = ToyPoint::from(&t0);
+    let p1 = ToyPoint::from(&t1);
+    let pk = RightPublicKey::Classic { H: &h * &x };
+    let S = Secret::random(&mut rng);
+    let r = G_hash(&S).unwrap();
+    let c = vec![&p0 * &r, &p1 * &r];
+    let (ss, enc) = c_encaps(S, c, r, vec![&pk]).unwrap();
+    let mut tracers = LinkedList::new();
+    tracers.push_back((t0, p0));
+    tracers.push_back((t1, p1));
+    let mut secrets = RevisionMap::new();
+    let mut chain = LinkedList::new();
+    chain.push_back((act, RightSecretKey::Classic { sk: x }));
+    secrets.map.insert(Right(vec![]), chain);
+    let msk = MasterSecretKey {
+        tsk: crate::core::TracingSecretKey { s, tracers, users: HashSet::new() },
+        secrets,
+        signing_key: None,
+        access_structure: AccessStructure::default(),
+    };
+    let res = full_decaps(&msk, &enc);
+    kani::cover!(act, "right activated");
+    kani::cover!(!act, "right disabled");
+    if act {
+        assert!(res.is_ok(), "the master key must open an encapsulation for a right it holds");
+        let (got, rights) = res.as_ref().unwrap();
+        assert!(eq32(&**got, &*ss), "full_decaps recovered a different secret");
+        assert!(rights.len() == 1 && rights.contains(&Right(vec![])), "full_decaps must report exactly the targeted right");
+    } else {
+        assert!(res.is_err(), "a disabled right must not be re-encapsulated");
+    }
+    std::mem::forget(res);
+    std::mem::forget(ss);
+    std::mem::forget(enc);
+    std::mem::forget(msk);
     std::mem::forget(pk);
 }
 
@@ -454,6 +601,54 @@ fn f_sign_order_matters() {
     kani::cover!(true, "both signed");
     assert!(!same_stream(&sa, &sb), "reordering the rights of a key does not change the MAC input");
     std::mem::forget(a);
+    std::mem::forget(b);
+    std::mem::forget(msk);
+}
+
+/// C08: the MAC input of the key {[n]:[k1]} with marker a0 is exactly a0, n, k1.
+#[kani::proof]
+#[kani::unwind(4)]
+#[kani::stub(zeroize::optimization_barrier, nop_barrier)]
+#[kani::stub(alloc::fmt::format, no_format)]
+#[kani::stub(<crate::verif_model::hash::Kmac as crate::verif_model::hash::Hasher>::update, ghost_update)]
+#[kani::stub(<crate::verif_model::hash::Kmac as crate::verif_model::hash::Hasher>::finalize, ghost_finalize)]
+fn f_sign_stream_layout() {
+    let msk = signing_msk();
+    let (a0, k1, n) = (el(), el(), kani::any::<u8>());
+    let id = uid(a0);
+    let mut a = RevisionVec::new();
+    a.create_chain_with_single_value(Right(vec![n]), cl(k1));
+    let r = sign(&msk, &id, &a).unwrap();
+    kani::cover!(true, "signed");
+    assert!(r.is_some(), "a master key with a signing key signs");
+    let s = ghost_take();
+    assert!(s.1 == 3 && s.0[0] == a0 && s.0[1] == n && s.0[2] == k1, "MAC input = marker, name, secret");
+    std::mem::forget(a);
+    std::mem::forget(msk);
+}
+
+/// C08 F-inj (re-framing): the key {"":[x, k1]} -- empty right name, chain of two -- is a different arrangement
+/// from {[x]:[k1]} (whose MAC input is a0, x, k1 by `f_sign_stream_layout`): their MAC inputs must differ.
+#[kani::proof]
+#[kani::unwind(4)]
+#[kani::stub(zeroize::optimization_barrier, nop_barrier)]
+#[kani::stub(alloc::fmt::format, no_format)]
+#[kani::stub(<crate::verif_model::hash::Kmac as crate::verif_model::hash::Hasher>::update, ghost_update)]
+#[kani::stub(<crate::verif_model::hash::Kmac as crate::verif_model::hash::Hasher>::finalize, ghost_finalize)]
+fn f_sign_reframing_name_vs_chain() {
+    let msk = signing_msk();
+    let (a0, x, k1) = (el(), el(), el());
+    let id = uid(a0);
+    let mut chain = LinkedList::new();
+    chain.push_back(cl(x));
+    chain.push_back(cl(k1));
+    let mut b = RevisionVec::new();
+    b.insert_new_chain(Right(vec![]), chain);
+    let _ = sign(&msk, &id, &b).unwrap();
+    kani::cover!(true, "signed");
+    let s = ghost_take();
+    assert!(!(s.1 == 3 && s.0[0] == a0 && s.0[1] == x && s.0[2] == k1),
+        "two different arrangements of rights and secrets feed the same bytes to the MAC (no length framing)");
     std::mem::forget(b);
     std::mem::forget(msk);
 }
